@@ -45,7 +45,7 @@ fn main() {
     // watchdog: a script that makes no progress for the time limit (a deadlock inside the library, a
     // collection that does not return) is reported as HANG and the process exits with status 3; the
     // driver re-runs the scripts after it in a fresh process
-    let limit: u64 = std::env::var("VERIF_SCRIPT_TIMEOUT").ok().and_then(|s| s.parse().ok()).unwrap_or(8);
+    let limit: u64 = std::env::var("VERIF_SCRIPT_TIMEOUT").ok().and_then(|s| s.parse().ok()).unwrap_or(20);
     let current: std::sync::Arc<std::sync::Mutex<(String, std::time::Instant, bool)>> =
         std::sync::Arc::new(std::sync::Mutex::new((String::new(), std::time::Instant::now(), false)));
     {
